@@ -60,7 +60,20 @@ type Case struct {
 	Check    string   `json:"check,omitempty"`
 	Rule     string   `json:"rule,omitempty"`
 	Opts     Opts     `json:"opts,omitempty"`
+	Phases   []Phase  `json:"phases,omitempty"` // kind "sequence"
 	Class    string   `json:"class,omitempty"`
+}
+
+// Phase: one fault assignment of a sequence case, and the calls made through the (same, live) group while it lasts.
+type Phase struct {
+	Modes []string `json:"modes"`
+	Calls []Call   `json:"calls"`
+}
+
+type Call struct {
+	Endpoint string `json:"endpoint"`
+	Variant  int    `json:"variant,omitempty"`
+	Slices   int    `json:"slices,omitempty"`
 }
 
 var (
@@ -85,6 +98,12 @@ type group struct {
 }
 
 func newGroup(modes []fakeprom.Mode, required bool) *group {
+	return newGroupT(modes, required, nil)
+}
+
+// newGroupT: everTimesOut[i] gives upstream i the short client timeout although it does not start in timeout mode
+// (sequence cases: the mode changes later, the client is configured once).
+func newGroupT(modes []fakeprom.Mode, required bool, everTimesOut []bool) *group {
 	g := &group{reg: prometheus.NewRegistry()}
 	clock := &fakeprom.Clock{}
 	var proms []*promapi.Prometheus
@@ -94,6 +113,9 @@ func newGroup(modes []fakeprom.Mode, required bool) *group {
 		timeout := 30 * time.Second
 		if m == fakeprom.ModeTimeout {
 			timeout = 20 * time.Millisecond // pint adds one second to it
+		}
+		if everTimesOut != nil && everTimesOut[i] {
+			timeout = 50 * time.Millisecond
 		}
 		proms = append(proms, promapi.NewPrometheus("c15", u.URL(), "", nil, timeout, 4, 1_000_000, nil))
 	}
@@ -144,6 +166,16 @@ type answer struct {
 }
 
 func call(fg *promapi.FailoverGroup, endpoint string, slices int) (a answer) {
+	return callVariant(fg, endpoint, slices, 0)
+}
+
+// callVariant: variant 0 is the request part 1 always used; other variants ask about another expression / metric
+// (config and flags have no variants).
+func callVariant(fg *promapi.FailoverGroup, endpoint string, slices, variant int) (a answer) {
+	suffix := ""
+	if variant > 0 {
+		suffix = fmt.Sprintf("_%d", variant)
+	}
 	defer func() {
 		if p := recover(); p != nil {
 			a.pan = p
@@ -152,7 +184,7 @@ func call(fg *promapi.FailoverGroup, endpoint string, slices int) (a answer) {
 	ctx := context.Background()
 	switch endpoint {
 	case "query":
-		r, err := fg.Query(ctx, "c15_question")
+		r, err := fg.Query(ctx, "c15_question"+suffix)
 		if err != nil {
 			return answer{err: err}
 		}
@@ -162,7 +194,7 @@ func call(fg *promapi.FailoverGroup, endpoint string, slices int) (a answer) {
 		}
 	case "query_range":
 		end := rangeBase + int64(max(slices, 1))*7200 - rangeStep
-		r, err := fg.RangeQuery(ctx, "c15_question", absRange{rangeBase, end, rangeStep})
+		r, err := fg.RangeQuery(ctx, "c15_question"+suffix, absRange{rangeBase, end, rangeStep})
 		if err != nil {
 			return answer{err: err}
 		}
@@ -183,7 +215,7 @@ func call(fg *promapi.FailoverGroup, endpoint string, slices int) (a answer) {
 		}
 		a.uri, a.tag = r.URI, r.Flags["upstream"]
 	case "metadata":
-		r, err := fg.Metadata(ctx, "c15_metric")
+		r, err := fg.Metadata(ctx, "c15_metric"+suffix)
 		if err != nil {
 			return answer{err: err}
 		}
@@ -350,7 +382,17 @@ func checkFailover(c Case) (inf info, err error) {
 		return inf, nil // no crash is all that is asked of these cells
 	}
 
-	// observations
+	observed, _, jerr := judgeCall(g, modes, outs, make([]int, len(g.ups)), a, c.Required)
+	inf.observed = observed
+	if jerr != nil {
+		return inf, fmt.Errorf("endpoint=%s modes=%v required=%v slices=%d: %v; %s", c.Endpoint, c.Modes, c.Required, c.Slices, jerr, observed)
+	}
+	return inf, nil
+}
+
+// judgeCall matches what was observed for ONE call (contacts logged from index from[i] on per upstream, the answer)
+// against the outcomes the contract allows; returns the index of the outcome that fits.
+func judgeCall(g *group, modes []fakeprom.Mode, outs []outcome, from []int, a answer, required bool) (observed string, matched int, err error) {
 	type obs struct {
 		n                int
 		first, firstDone int64 // first arrival, first completion
@@ -358,7 +400,18 @@ func checkFailover(c Case) (inf info, err error) {
 	seen := make([]obs, len(g.ups))
 	var parts []string
 	for i, u := range g.ups {
-		cs := u.Contacts()
+		all := u.Contacts()
+		if from[i] <= len(all) {
+			all = all[from[i]:]
+		}
+		// requests the client had dropped before the server read them (cancelled slices of a failed range query, possibly
+		// of the PREVIOUS call) say nothing about who was asked when
+		var cs []fakeprom.Contact
+		for _, ct := range all {
+			if !ct.Gone {
+				cs = append(cs, ct)
+			}
+		}
 		seen[i].n = len(cs)
 		for k, ct := range cs {
 			if k == 0 || ct.Arrived < seen[i].first {
@@ -378,10 +431,10 @@ func checkFailover(c Case) (inf info, err error) {
 	if a.err == nil {
 		got = fmt.Sprintf("answer of upstream %q from %s", a.tag, a.uri)
 	}
-	inf.observed = fmt.Sprintf("contacts %s; result: %s", strings.Join(parts, " "), got)
+	observed = fmt.Sprintf("contacts %s; result: %s", strings.Join(parts, " "), got)
 
 	var why []string
-	for _, o := range outs {
+	for oi, o := range outs {
 		reason := ""
 		for i, u := range g.ups {
 			if u.Observable() && (seen[i].n > 0) != o.contacted[i] {
@@ -402,14 +455,14 @@ func checkFailover(c Case) (inf info, err error) {
 			if o.okFrom >= 0 {
 				switch {
 				case a.err != nil:
-					reason = fmt.Sprintf("upstream %d is healthy but an error was returned", o.okFrom)
+					reason = fmt.Sprintf("upstream %d should have answered but an error was returned", o.okFrom)
 				case a.tag != fmt.Sprint(o.okFrom) || a.uri != g.ups[o.okFrom].URL():
 					reason = fmt.Sprintf("the answer should be upstream %d's (%s)", o.okFrom, g.ups[o.okFrom].URL())
 				}
 			} else {
 				if a.err == nil {
 					reason = fmt.Sprintf("upstream %d's error should have been returned", o.errFrom)
-				} else if e := checkError(a.err, o.errFrom, modes[o.errFrom], g.ups[o.errFrom].URL(), c.Required); e != nil {
+				} else if e := checkError(a.err, o.errFrom, modes[o.errFrom], g.ups[o.errFrom].URL(), required); e != nil {
 					reason = e.Error()
 				}
 			}
@@ -435,11 +488,151 @@ func checkFailover(c Case) (inf info, err error) {
 			}
 		}
 		if reason == "" {
-			return inf, nil
+			return observed, oi, nil
 		}
 		why = append(why, reason)
 	}
-	return inf, fmt.Errorf("endpoint=%s modes=%v required=%v slices=%d: %s; %s", c.Endpoint, c.Modes, c.Required, c.Slices, strings.Join(why, " | or: "), inf.observed)
+	return observed, -1, errors.New(strings.Join(why, " | or: "))
+}
+
+// ---------------------------------------------------------------------------
+// part 1, sequences: one live group, the fault assignment changes between calls
+
+// expectedSeq is expected() with pint's documented caching in mind: an upstream that already answered THIS
+// request successfully may serve it from the group's cache without being contacted, whatever its mode is now.
+func expectedSeq(modes []fakeprom.Mode, endpoint string, cached []bool) (outs []outcome, unsupported bool) {
+	n := len(modes)
+	contacted := make([]bool, n)
+	snap := func() []bool { return append([]bool(nil), contacted...) }
+	var walk func(i int)
+	walk = func(i int) {
+		if i == n {
+			outs = append(outs, outcome{snap(), -1, n - 1})
+			return
+		}
+		if cached[i] {
+			outs = append(outs, outcome{snap(), i, -1})
+			return
+		}
+		contacted[i] = true
+		defer func() { contacted[i] = false }()
+		m := modes[i]
+		switch {
+		case m == fakeprom.ModeHealthy:
+			outs = append(outs, outcome{snap(), i, -1})
+		case m.Unavailable():
+			walk(i + 1)
+		case m == fakeprom.ModeTruncated:
+			outs = append(outs, outcome{snap(), -1, i})
+			walk(i + 1)
+		case isUnsupportedCell(endpoint, m):
+			unsupported = true
+		default:
+			outs = append(outs, outcome{snap(), -1, i})
+		}
+	}
+	walk(0)
+	return outs, unsupported
+}
+
+func checkSequence(c Case) (inf info, err error) {
+	if len(c.Phases) == 0 {
+		return inf, fmt.Errorf("%w: no phases", errInconclusive)
+	}
+	n := len(c.Phases[0].Modes)
+	phaseModes := make([][]fakeprom.Mode, len(c.Phases))
+	ever := make([]bool, n)
+	for pi, ph := range c.Phases {
+		m, err := toModes(ph.Modes)
+		if err != nil || len(m) != n {
+			return inf, fmt.Errorf("%w: phase %d: bad mode list", errInconclusive, pi)
+		}
+		phaseModes[pi] = m
+		for i, x := range m {
+			if x == fakeprom.ModeTimeout {
+				ever[i] = true
+			}
+		}
+	}
+	g := newGroupT(phaseModes[0], c.Required, ever)
+	defer g.close()
+
+	cached := map[string][]bool{} // request -> per upstream: answered successfully before
+	recoveries, decisive := 0, 0
+	for pi, ph := range c.Phases {
+		modes := phaseModes[pi]
+		for i, u := range g.ups {
+			if err := u.SetMode(modes[i]); err != nil {
+				return inf, fmt.Errorf("%w: cannot switch upstream %d to %s: %v", errInconclusive, i, modes[i], err)
+			}
+			if pi > 0 && phaseModes[pi-1][i].Unavailable() && !modes[i].Unavailable() {
+				recoveries++
+			}
+		}
+		for ci, cl := range ph.Calls {
+			req := fmt.Sprintf("%s/%d/%d", cl.Endpoint, cl.Variant, cl.Slices)
+			if cl.Endpoint == "config" || cl.Endpoint == "flags" {
+				req = cl.Endpoint
+			}
+			if cached[req] == nil {
+				cached[req] = make([]bool, n)
+			}
+			from := make([]int, n)
+			for i, u := range g.ups {
+				// let requests of the previous call that the server has not finished reading drain first
+				if u.Observable() && !u.Quiesce(20*time.Second) {
+					return inf, fmt.Errorf("%w: upstream %d still has open connections 20s after the previous call", errInconclusive, i)
+				}
+				from[i] = len(u.Contacts())
+			}
+			res := make(chan answer, 1)
+			go func() { res <- callVariant(g.fg, cl.Endpoint, cl.Slices, cl.Variant) }()
+			var a answer
+			select {
+			case a = <-res:
+			case <-time.After(120 * time.Second):
+				return inf, fmt.Errorf("%w: no result within 120s", errInconclusive)
+			}
+			where := fmt.Sprintf("phase %d %v call %d (%s variant %d slices %d), required=%v", pi+1, ph.Modes, ci+1, cl.Endpoint, cl.Variant, cl.Slices, c.Required)
+			if a.pan != nil {
+				return inf, fmt.Errorf("%s: panic: %v", where, a.pan)
+			}
+			if errors.Is(a.err, errInconclusive) {
+				return inf, a.err
+			}
+			outs, unsupported := expectedSeq(modes, cl.Endpoint, cached[req])
+			if unsupported {
+				// the "unsupported API" feature switches the endpoint off for the rest of the run: nothing more to judge
+				inf.class, inf.nontrivial = "sequence:unsupported-api", false
+				return inf, nil
+			}
+			observed, oi, jerr := judgeCall(g, modes, outs, from, a, c.Required)
+			inf.observed = observed
+			if jerr != nil {
+				var hist []string
+				for _, p := range c.Phases[:pi+1] {
+					hist = append(hist, fmt.Sprint(p.Modes))
+				}
+				return inf, fmt.Errorf("%s, fault history %s: %v; %s", where, strings.Join(hist, " -> "), jerr, observed)
+			}
+			if o := outs[oi]; o.okFrom >= 0 {
+				cached[req][o.okFrom] = true
+				if o.okFrom > 0 || pi > 0 {
+					decisive++
+				}
+			}
+		}
+	}
+	inf.class = fmt.Sprintf("sequence:n=%d:phases=%d:recoveries=%s", n, len(c.Phases), bucketN(recoveries))
+	inf.nontrivial = recoveries > 0 && decisive > 0
+	return inf, nil
+}
+
+func bucketN(n int) string {
+	if n >= 3 {
+		return "3+"
+	}
+	return fmt.Sprint(n)
 }
 
 // ---------------------------------------------------------------------------
@@ -656,6 +849,8 @@ func runOnce(c Case) (info, error) {
 		return checkFailover(c)
 	case "checks":
 		return checkChecks(c)
+	case "sequence":
+		return checkSequence(c)
 	}
 	return info{}, fmt.Errorf("unknown case kind %q", c.Kind)
 }
@@ -714,6 +909,68 @@ func genFailover(t *rapid.T) Case {
 	c.Required = rapid.Bool().Draw(t, "required")
 	if c.Endpoint == "query_range" {
 		c.Slices = rapid.SampledFrom([]int{1, 3}).Draw(t, "slices")
+	}
+	return c
+}
+
+// scripts: how one upstream's fault mode develops over the phases of a sequence case
+var scripts = [][]string{
+	{"timeout", "healthy", "healthy", "timeout"},
+	{"timeout", "healthy", "timeout", "healthy"},
+	{"500", "healthy", "500", "healthy"},
+	{"refused", "healthy", "refused", "healthy"},
+	{"healthy", "timeout", "healthy", "healthy"},
+	{"healthy", "healthy", "healthy", "healthy"},
+	{"503", "503", "healthy", "healthy"},
+	{"server_error", "healthy", "bad_data", "healthy"},
+	{"healthy", "500", "refused", "healthy"},
+	{"bad_data", "healthy", "execution", "healthy"},
+	{"truncated", "healthy", "healthy", "500"},
+	{"healthy", "refused", "healthy", "503"},
+}
+
+func genSequence(t *rapid.T) Case {
+	c := Case{Kind: "sequence"}
+	n := rapid.SampledFrom([]int{1, 2, 2, 3, 3}).Draw(t, "upstreams")
+	np := rapid.IntRange(2, 4).Draw(t, "phases")
+	endpoint := rapid.SampledFrom(fakeprom.Endpoints).Draw(t, "endpoint")
+	slices := 0
+	if endpoint == "query_range" {
+		slices = rapid.SampledFrom([]int{1, 3}).Draw(t, "slices")
+	}
+	per := make([][]string, n)
+	for i := range per {
+		if rapid.IntRange(0, 3).Draw(t, fmt.Sprintf("scripted%d", i)) > 0 {
+			per[i] = rapid.SampledFrom(scripts).Draw(t, fmt.Sprintf("script%d", i))
+		} else {
+			per[i] = rapid.SliceOfN(rapid.SampledFrom([]string{"healthy", "healthy", "refused", "500", "503", "server_error", "bad_data", "execution", "truncated", "404"}), 4, 4).Draw(t, fmt.Sprintf("modes%d", i))
+		}
+	}
+	c.Required = rapid.Bool().Draw(t, "required")
+	for p := 0; p < np; p++ {
+		ph := Phase{}
+		for i := 0; i < n; i++ {
+			m := per[i][p]
+			if m == "404" && endpoint != "query" && endpoint != "query_range" {
+				m = "bad_data" // 404 there is the "unsupported API" feature, which outlives the phase
+			}
+			ph.Modes = append(ph.Modes, m)
+		}
+		for k, nc := 0, rapid.IntRange(1, 2).Draw(t, fmt.Sprintf("calls%d", p)); k < nc; k++ {
+			cl := Call{Endpoint: endpoint, Slices: slices}
+			if rapid.IntRange(0, 5).Draw(t, fmt.Sprintf("other%d.%d", p, k)) == 0 {
+				cl.Endpoint = rapid.SampledFrom([]string{"query", "query_range", "metadata"}).Draw(t, fmt.Sprintf("ep%d.%d", p, k))
+				cl.Slices = 0
+				if cl.Endpoint == "query_range" {
+					cl.Slices = max(slices, 1) // one window per case: slices of different windows may share cache entries
+				}
+			}
+			if cl.Endpoint != "config" && cl.Endpoint != "flags" && rapid.IntRange(0, 3).Draw(t, fmt.Sprintf("variant%d.%d", p, k)) == 0 {
+				cl.Variant = 1
+			}
+			ph.Calls = append(ph.Calls, cl)
+		}
+		c.Phases = append(c.Phases, ph)
 	}
 	return c
 }
@@ -865,7 +1122,7 @@ func knownClass(c Case) string { return "" }
 var wsRe = regexp.MustCompile(`\s+`)
 
 func caseKey(c Case) string {
-	return fmt.Sprintf("%s|%s|%v|%v|%d|%s|%s|%+v", c.Kind, c.Endpoint, c.Modes, c.Required, c.Slices, c.Check, c.Rule, c.Opts)
+	return fmt.Sprintf("%s|%s|%v|%v|%d|%s|%s|%+v|%+v", c.Kind, c.Endpoint, c.Modes, c.Required, c.Slices, c.Check, c.Rule, c.Opts, c.Phases)
 }
 
 type recorder struct {
@@ -928,8 +1185,9 @@ func driveRapid(t *testing.T, gen func(*rapid.T) Case) {
 	})
 }
 
-func TestPropFailover(t *testing.T) { driveRapid(t, genFailover) }
-func TestPropChecks(t *testing.T)   { driveRapid(t, genChecks) }
+func TestPropFailover(t *testing.T)    { driveRapid(t, genFailover) }
+func TestPropFailoverSeq(t *testing.T) { driveRapid(t, genSequence) }
+func TestPropChecks(t *testing.T)      { driveRapid(t, genChecks) }
 
 // TestFaultTable enumerates the whole fault table (thorough tier).
 func TestFaultTable(t *testing.T) {
